@@ -33,15 +33,21 @@ def methods_of(rid):
 
 def make_endpoint(rid, kind):
     from clastic import Response
+    from clastic.errors import Forbidden
+
+    def body(request):
+        if request.args.get('fail'):
+            raise Forbidden('probe: the endpoint of %s refuses' % rid)      # an error response produced BY the endpoint
+        return Response('mk-%s-km' % rid)
     if kind == 'needs':
-        def ep(need):
-            return Response('mk-%s-km' % rid)
+        def ep(request, need):
+            return body(request)
     elif kind == 'bindv':
-        def ep(v):
-            return Response('mk-%s-km' % rid)
+        def ep(request, v):
+            return body(request)
     else:
-        def ep():
-            return Response('mk-%s-km' % rid)
+        def ep(request):
+            return body(request)
     ep.rid = rid
     return ep
 
@@ -199,6 +205,9 @@ def replay_history(run, rec):
                 return False
             for e in v['table']:
                 p = probe_path(e)
+                # an error raised by the endpoint itself (rendered through the bound route's error path) must leave no trace
+                R.probe(app, p + '?fail=1', 'GET')
+                R.probe(app, p + '?fail=1', 'POST')
                 # a method nobody admits first (an ordinary 405 must leave no trace), then the restricted methods
                 for method in ('DELETE', 'POST', 'GET'):
                     got = R.probe(app, p, method)
